@@ -12,6 +12,7 @@ ASSIGN = [
     [-3, 0.5, 7, 2.25, -1.5, 11, 4, 0.125],             # signs and dyadic fractions
     ['ab', None, 'cd', 5, None, 'x', 2, 'ab'],          # texts and blanks
     [0, 1, 1, 2, 0, 3, 2, 1],                           # zeros and equal operands: division by zero, ties in comparisons
+    [None, -1, -0.5, None, 3, -7, 0, None],             # blanks next to negative numbers and zero: a blank counts as 0 on either side of every operator
 ]
 
 
@@ -85,8 +86,8 @@ def run(tier, seed):
     chk = core.Check('C01', tier, seed)
     rng = chk.rng
     chk.rule = ('every valid token sequence of the operator grammar (operands, brackets, unary + -, postfix %, + - * / &, six comparisons) up to 5 tokens (quick) / 7 (thorough) '
-                'and random chains to 25 tokens with redundant brackets and spaces, each under 4 operand assignments (distinct primes; signs and dyadic fractions; texts and '
-                'blanks; zeros and ties), operands from workbook cells and from overrides; value through the real translator and class vs the Lean model of the grouping + '
+                'and random chains to 25 tokens with redundant brackets and spaces, each under 5 operand assignments (distinct primes; signs and dyadic fractions; texts and '
+                'blanks; zeros and ties; blanks next to negative numbers), operands from workbook cells and from overrides; value through the real translator and class vs the Lean model of the grouping + '
                 'evaluation and vs an independent recursive-descent reading of the same tokens (spec); numeric literals on a decimal grid vs the nearest double; malformed '
                 'operator sequences are rejected. distinct = distinct (formula, assignment)')
     chk.assumptions += ['text forms under & follow Python str() for ints; floats and booleans under & are compared with the model only where it models them (the statement fixes no text form)',
